@@ -356,7 +356,7 @@ fn case(rng: &mut Rng, table: &Table, st: &mut Stats) {
     let d = match d {
         Ok(Ok(d)) => d,
         Ok(Err(m)) => {
-            if m.contains("both zero") {
+            if crate::core::is_zero_pow_zero(&m) {
                 st.bump("zero_to_the_zero_errors_not_judged");
             } else {
                 st.violation(format!("error|{text}"), text.len(), json!({"kind": "val-derivative-error", "text": text, "wrt": vars[wrt], "error": m}));
@@ -569,7 +569,7 @@ fn int_case(rng: &mut Rng, table: &Table, st: &mut Stats) {
     let d = match d {
         Ok(Ok(d)) => d,
         Ok(Err(m)) => {
-            if m.contains("both zero") {
+            if crate::core::is_zero_pow_zero(&m) {
                 st.bump("zero_to_the_zero_errors_not_judged");
             } else {
                 st.violation(format!("int-error|{text}"), text.len(), json!({"kind": "val-derivative-error", "text": text, "wrt": vars[wrt], "error": m}));
@@ -660,7 +660,7 @@ fn int_fun_case(rng: &mut Rng, table: &Table, st: &mut Stats) {
     let (f, d) = match r {
         Ok(Ok(x)) => x,
         Ok(Err(m)) => {
-            if !m.contains("both zero") {
+            if !crate::core::is_zero_pow_zero(&m) {
                 st.violation(format!("intfun-error|{text}"), text.len(), json!({"kind": "val-derivative-error", "text": text, "wrt": vars[wrt], "error": m}));
             }
             return;
